@@ -46,7 +46,18 @@ pub mod shims {
     pub type AccountSync = std::sync::Arc<RwLock<Account>>;
     pub type EndpointSync = std::sync::Arc<RwLock<Endpoint>>;
 
-    pub struct KeyPair { pub id: Ghost<int> }
+    #[derive(Clone, Copy, PartialEq, Eq)]
+    pub struct KeyType { pub id: u8 }
+    impl vstd::std_specs::cmp::PartialEqSpecImpl for KeyType {
+        open spec fn obeys_eq_spec() -> bool { true }
+        open spec fn eq_spec(&self, other: &KeyType) -> bool { *self == *other }
+    }
+    pub struct KeyPair { pub key_type: KeyType, pub id: Ghost<int> }
+    // acme_common::crypto::gen_keypair (unit keys): a fresh key of the requested type, in memory only - it is in no file
+    #[verifier::external_body]
+    pub fn gen_keypair(key_type: KeyType) -> (r: Result<KeyPair, Error>) ensures r matches Ok(k) ==> k.key_type == key_type && fresh_key(k.id@) { unimplemented!() }
+    // a key that has just been generated is not the key of any file
+    pub uninterp spec fn fresh_key(id: int) -> bool;
     pub struct JwsSignatureAlgorithm { pub id: u8 }
     pub struct AccountKey { pub key: KeyPair, pub signature_algorithm: JwsSignatureAlgorithm }
     pub struct AccountEndpoint { pub account_url: String }
@@ -86,7 +97,7 @@ pub mod shims {
     pub uninterp spec fn data_id(d: ChallengeHookData) -> int;
     pub struct Certificate {
         pub identifiers: Vec<Identifier>, pub csr_digest: HashFunction, pub subject_attributes: SubjectAttributes,
-        pub kp_reuse: bool, pub file_manager: FileManager,
+        pub kp_reuse: bool, pub file_manager: FileManager, pub key_type: KeyType,
     }
     // the configured entry an authorization is solved with (certificate.rs::get_identifier_from_str, unit schedule)
     pub uninterp spec fn chosen_for(c: Certificate, identifier: Seq<char>, wildcard: bool) -> Option<Identifier>;
